@@ -19,8 +19,9 @@ type profile struct {
 	bidir    bool
 	oobProb  int // percent per round and side
 	withOOB  bool
-	maxUnits int // largest write in units of mss
-	mtuPlay  int // percent per round: SetMtu during traffic (safe points only unless unsafe)
+	maxUnits int  // largest write in units of mss
+	mtuPlay  int  // percent per round: SetMtu during traffic (safe points only unless unsafe)
+	stall    bool // the readers stay away for the first two thirds of the history (zero window, probes)
 }
 
 func randomConfig(g *hx.Rng, ci cipherSpec, fec [2]int) config {
@@ -148,9 +149,11 @@ func (w *world) traffic(p profile, gOps, gFate, gOOB, gOOBFate *hx.Rng) {
 		}
 		w.flushNet(w.A, p, gFate, gOOBFate)
 		w.flushNet(w.B, p, gFate, gOOBFate)
-		w.read(w.A)
-		w.read(w.B)
-		if gOps.Chance(p.mtuPlay) {
+		if !p.stall || r >= p.rounds*2/3 {
+			w.read(w.A)
+			w.read(w.B)
+		}
+		if gOps.Chance(p.mtuPlay) && !p.stall {
 			w.safeSetMtu(w.ep([]string{"A", "B"}[gOps.Intn(2)]), gOps)
 		}
 		w.sleep(p.step)
